@@ -226,6 +226,9 @@ class _InlineAdjacent(ast.NodeTransformer):
                             ok_loads.add(id(nx.value))
                         elif isinstance(nx, ast.If) and isinstance(nx.test, ast.Name) and nx.test.id == t:
                             ok_loads.add(id(nx.test))
+                        elif isinstance(nx, ast.If) and isinstance(nx.test, ast.UnaryOp) and isinstance(nx.test.op, ast.Not) \
+                                and isinstance(nx.test.operand, ast.Name) and nx.test.operand.id == t:
+                            ok_loads.add(id(nx.test.operand))
         res = True
         for x in ast.walk(fn):
             if isinstance(x, ast.Name) and x.id == t:
@@ -264,6 +267,12 @@ class _InlineAdjacent(ast.NodeTransformer):
                     continue
                 if isinstance(nxt, ast.If) and isinstance(nxt.test, ast.Name) and nxt.test.id == t and self._adjacent_only(fn, t):
                     nxt.test = s.value
+                    out.append(nxt)
+                    i += 2
+                    continue
+                if isinstance(nxt, ast.If) and isinstance(nxt.test, ast.UnaryOp) and isinstance(nxt.test.op, ast.Not) \
+                        and isinstance(nxt.test.operand, ast.Name) and nxt.test.operand.id == t and self._adjacent_only(fn, t):
+                    nxt.test = _negate_exact(s.value)
                     out.append(nxt)
                     i += 2
                     continue
@@ -1229,7 +1238,7 @@ class Repo:
             tree, inl, skipped = inline_new_helpers(tree, mod, known_functions())
             if inl:
                 self.inlined[mod] = sorted(set(inl))
-            tree = orient_comparisons(inline_adjacent_temps(forward_single_use_temps(structure_guards(tree))))
+            tree = orient_comparisons(inline_adjacent_temps(forward_single_use_temps(structure_guards(orient_comparisons(tree)))))
             self.modules[mod] = Module(mod, path, rel, src, tree)
         if not self.modules:
             raise AnalysisError("no modules parsed under %s" % pkg_dir)
